@@ -137,6 +137,40 @@ def run(E: Engine, rep: Report, tier: str) -> dict:
     pin = E.fn("pulser.pulse.Pulse.__init__")
     mods = [n for n in own_nodes(pin) if isinstance(n, ast.BinOp) and isinstance(n.op, ast.Mod) and _is_two_pi(n.right)]
     rep.check(len(mods) >= 2, "FLOW", "Pulse.__init__|phase-mod-2pi", "phase and post_phase_shift reduced modulo 2*pi", f"only {len(mods)} modulo-2*pi reductions in Pulse.__init__ (phase and post_phase_shift need one each)", E.where(pin))
-    rep.floor("FLOW", 14)
-    rep.floor("GUARD", 2)
+    # the per-basis reference table is initialised once: every `_basis_ref[b] = {...}` is guarded by `b not in self._basis_ref`
+    from ..absval import abstractor as _abs
+
+    n_init = 0
+    for f in E.cls(SEQ).methods.values():
+        for g in f:
+            abf = None
+            for n in own_nodes(g):
+                if isinstance(n, ast.Assign) and isinstance(n.targets[0], ast.Subscript) and norm(n.targets[0].value) == "self._basis_ref":
+                    n_init += 1
+                    abf = abf or _abs(E.flow(g))
+                    key = norm(n.targets[0].slice)
+                    dnf = abf.enclosing_conditions(n)
+                    ok = all(any(l.atom is not None and l.atom.rel == "NotIn" and "self._basis_ref" in l.atom.rhs.roots and norm(n.targets[0].slice) in l.text for l in c) for c in dnf) and dnf != [[]]
+                    rep.check(ok, "GUARD", f"{g.short}|basis-ref-initialised-once|{key}", "phase references of a basis are created only if the basis has none yet", f"`{norm(n)[:70]}` in {g.short} is not guarded by `{key} not in self._basis_ref`: declaring another channel on the same basis would reset every accumulated phase reference and barrier", E.where(g, n))
+    if n_init < 2:
+        rep.error(f"only {n_init} initialisations of _basis_ref found (expected 2)")
+    # EOM drift bookkeeping: the drift window starts where the buffer starts --
+    # after the fall time iff enable_eom waits for it (include_fall_time == not _skip_wait_for_fall)
+    en = E.method(SCHED, "enable_eom")
+    for mname in ("enable_eom_mode", "modify_eom_setpoint"):
+        m = E.method(SEQ, mname)
+        c_en = one_call(E, m, en)
+        skip = next((k.value for k in c_en.keywords if k.arg == "_skip_wait_for_fall"), None)
+        skips = isinstance(skip, ast.Constant) and skip.value is True
+        flag = None
+        for n in own_nodes(m):
+            if isinstance(n, ast.Call) and (dotted(n.func) or "") == "_PhaseDriftParams":
+                ti = next((k.value for k in n.keywords if k.arg == "ti"), None)
+                if isinstance(ti, ast.Call) and isinstance(ti.func, ast.Attribute) and ti.func.attr == "get_duration":
+                    kw = next((k.value for k in ti.keywords if k.arg == "include_fall_time"), None)
+                    flag = bool(isinstance(kw, ast.Constant) and kw.value is True)
+        rep.check(flag is not None and flag == (not skips), "FLOW", f"Sequence.{mname}|drift-window-starts-with-buffer", f"drift start uses include_fall_time={not skips} because enable_eom is called with _skip_wait_for_fall={skips}",
+                  f"in {mname} the phase-drift window starts at get_duration(include_fall_time={flag}) while the buffer is added with _skip_wait_for_fall={skips}: the drift accumulated between the two instants is not corrected", E.where(m))
+    rep.floor("FLOW", 16)
+    rep.floor("GUARD", 4)
     return {"phase_writes": n_w}
